@@ -23,7 +23,7 @@ class Contract:
                  env=None, note='', name=None, self_obj=None, cases=None,
                  budget=None, skip_self=False, native=None,
                  native_scope=None, always_raises=False, track_pulls=None,
-                 track_slices=False):
+                 track_slices=False, gen_form=None):
         self.target = target
         self.params = params or {}
         self.requires = list(requires)
@@ -50,6 +50,10 @@ class Contract:
         self.always_raises = always_raises
         self.track_pulls = track_pulls
         self.track_slices = track_slices
+        # alternative clauses used when the target turns out to be written
+        # as a generator function (ensures over out / pulls instead of over
+        # the returned lazy object): dict(ensures=, track_pulls=, loops=)
+        self.gen_form = gen_form
 
     def param_order(self, fn):
         a = fn.node.args
@@ -71,6 +75,13 @@ class Contract:
                 if self.fn_node is None:
                     raise LookupError('function %s not found in %s' % (
                         self.qualname, mod))
+                if self.gen_form and _is_generator(self.fn_node) and \
+                        not getattr(self, '_gen_applied', False):
+                    self._gen_applied = True
+                    self.ensures = list(self.gen_form.get('ensures', ()))
+                    self.loops = list(self.gen_form.get('loops', ()))
+                    self.track_pulls = self.gen_form.get('track_pulls')
+                    self.short += '/generator-form'
                 return self
         raise LookupError('module of %s not found' % self.target)
 
